@@ -47,7 +47,15 @@ func genRtsp(t *rapid.T) RtspCase {
 	o := gen.StreamOpts{Video: []string{"avc", "avc", "hevc", ""}, Audio: []string{"aac", "aac", "g711a", "g711u", "opus", ""}, MaxGops: 4, MaxGopLen: 6, MaxNalLen: 3000, HeaderChurn: true, MultiNal: true, NoMeta: false,
 		MidMeta: true, MidHeaders: true}
 	c.Codecs, c.Items = gen.GenStream(t, o)
+	padForSdp(t, &c)
 	c.JoinAt = rapid.IntRange(0, len(c.Items)).Draw(t, "joinAt")
+	if r := sdpReadyAt(c); r >= 0 && r < len(c.Items) && rapid.IntRange(0, 3).Draw(t, "joinBehindSdp") == 0 {
+		// (the uniform draw is biased towards small values: make sure joins behind the analysis window are common)
+		c.JoinAt = r + 1 + int(rapid.Uint32().Draw(t, "joinBehind"))%(len(c.Items)-r)
+	}
+	// DESCRIBE at JoinAt even if lal cannot have an SDP yet (the request is parked and answered once the SDP exists);
+	// otherwise the join is moved behind that instant
+	c.Early = rapid.IntRange(0, 3).Draw(t, "early") != 0
 	if rapid.IntRange(0, 2).Draw(t, "hasPrev") == 0 {
 		cd := gen.GenCodecs(t, o)
 		items := gen.GenItems(t, cd, o, 2)
@@ -67,9 +75,51 @@ func genRtsp(t *rapid.T) RtspCase {
 			}
 		}
 		c.Prev = &Inc{Codecs: cd, Items: items}
-		c.Early = rapid.Bool().Draw(t, "early")
 	}
 	return c
+}
+
+// padForSdp: lal describes a single-track stream only after its analysis window of 16 audio/video messages.  A
+// generated single-track stream is continued (same track, same clock) until the SDP exists plus a drawn number of
+// further frames, so that every case can be judged and joins behind the window exist - for audio-only streams too.
+func padForSdp(t *rapid.T, c *RtspCase) {
+	if c.Codecs.Video != "" && c.Codecs.Audio != "" && sdpReadyAt(*c) >= 0 {
+		return
+	}
+	extra := rapid.IntRange(0, 10).Draw(t, "padExtra")
+	if c.Codecs.Video == "" {
+		extra += 6
+	}
+	var ts uint32
+	for _, it := range c.Items {
+		if it.Kind == "video" || it.Kind == "audio" {
+			ts = it.Ts
+		}
+	}
+	serial := uint32(300000)
+	for n := 0; n < 80 && (sdpReadyAt(*c) < 0 || extra > 0); n++ {
+		if sdpReadyAt(*c) >= 0 {
+			extra--
+		}
+		serial++
+		if c.Codecs.Video != "" {
+			ts += 40
+			key := n%6 == 5
+			hdr := []byte{0x41}
+			switch {
+			case c.Codecs.Video == "hevc" && key:
+				hdr = []byte{19 << 1, 1}
+			case c.Codecs.Video == "hevc":
+				hdr = []byte{1 << 1, 1}
+			case key:
+				hdr = []byte{0x65}
+			}
+			c.Items = append(c.Items, gen.Item{Kind: "video", Ts: ts, Key: key, Nals: []gen.NalSpec{{Hdr: hdr, Len: 10 + n, Seed: serial, Serial: serial}}, Variant: int(serial)})
+		} else {
+			ts += 23
+			c.Items = append(c.Items, gen.Item{Kind: "audio", Ts: ts, ALen: 8 + n, ASeed: serial})
+		}
+	}
 }
 
 func sameParamSets(codec string, a, b int) bool {
@@ -151,7 +201,7 @@ func runRtsp(c RtspCase) *pbt.Violation {
 		return pbt.V("publish-refused", "%v", p.Err)
 	}
 	describeAt := join
-	if c.Early && c.Prev != nil && c.JoinAt < ready {
+	if c.Early && c.JoinAt < ready {
 		describeAt = c.JoinAt
 	}
 	vshInForce := -1
@@ -466,8 +516,27 @@ func classifyRtsp(c RtspCase) (bool, []string) {
 		}
 	}
 	ready := sdpReadyAt(c)
-	if c.Prev != nil && c.Early && ready >= 0 && c.JoinAt < ready {
+	if c.Early && ready >= 0 && c.JoinAt < ready {
 		labels = append(labels, "describe-before-sdp-exists")
+		single := c.Codecs.Video == "" || c.Codecs.Audio == ""
+		if single {
+			labels = append(labels, "describe-parked-through-analysis-window")
+		}
+		if c.JoinAt == 0 {
+			labels = append(labels, "describe-before-first-message")
+		}
+	}
+	if c.Codecs.Video == "" && ready >= 0 {
+		switch {
+		case c.JoinAt < ready && c.Early:
+			labels = append(labels, "audio-only:describe-parked")
+		case c.JoinAt <= ready:
+			labels = append(labels, "audio-only:join-at-sdp")
+		case c.JoinAt >= len(c.Items):
+			labels = append(labels, "audio-only:join-after-last")
+		default:
+			labels = append(labels, "audio-only:join-mid-stream")
+		}
 	}
 	if ready < 0 {
 		return false, append(labels, "no-sdp-yet")
